@@ -1352,3 +1352,158 @@ class SelfCheckPart:
 
 
 SELFCHECK = SelfCheckPart()
+
+
+# ---------------------------------------------------------------------------------------------------------------------
+# WRITERS: dot.tree_to_dotfile / mermaid.node_to_mermaid_flowchart – stream vs path, format=, partial output of a failing mapper
+# ---------------------------------------------------------------------------------------------------------------------
+WR_UNIV = ["s:a", "s:b", "e:1", "i:7", "s:c d", "s:a"]
+WR_CHART_OPTS = [
+    dict(md=True, dir="TD", title=True, headers=None, add=True, uniq=True, nt=None, et=None),
+    dict(md=False, dir="LR", title="My chart", headers=["%% one"], add=False, uniq=True, nt=None, et=None),
+    dict(md=True, dir="BT", title=False, headers=[], add=True, uniq=False, nt="<{node.name}>", et="{from_id}>{to_id}|{to_node.name}"),
+    # failing mappers: unknown field in the node template / `kind` is not passed to a str edge template
+    dict(md=True, dir="TD", title=True, headers=None, add=True, uniq=True, nt="{nope}", et=None),
+    dict(md=False, dir="TD", title="t", headers=None, add=False, uniq=True, nt=None, et='{from_id}-- "{kind}" -->{to_id}'),
+    dict(md=True, dir="TD", title=True, headers=None, add=True, uniq=False, nt="{node.name}", et="{to_id}<{nope}"),
+]
+WR_DOT_OPTS = [
+    dict(add=True, uniq=True, g=[], n=[], e=[], nm=None, em=None),
+    dict(add=False, uniq=True, g=[["rankdir", "LR"]], n=[["style", "filled"]], e=[], nm=["color", "red"], em=None),
+    dict(add=True, uniq=True, g=[["a", "b"]], n=[], e=[["c", "d"]], nm=["shape", "circle"], em=["label", "L"]),
+]
+
+
+class WritersPart:
+    tag = "WRITERS"
+    case_module = "CaseMiscWriters"
+    case_vo = "theories/Cases/CaseMiscWriters.vo"
+    run_fn = "run_misc_writers"
+    rule = ("to_mermaid_flowchart / to_dotfile as WRITERS: plain and typed trees (forests <= 3 nodes, seeded random trees up to 8 nodes), "
+            "start = the tree and every second node, 6 chart options (3 with a failing str mapper) and 3 DOT options x target stream / "
+            "path x format None / 'png'; observed: the text in the stream or in the file that was written (the path itself or the path "
+            "with the replaced suffix), refusal, and the PARTIAL text a failing mapper leaves behind; the external converters are not run "
+            "as part of the observation; oracle: text = lines of the iterator API + newline each, refusal writes nothing")
+
+    def descs(self, tier, rng):
+        i = 0
+        for n in range(0, 4):
+            for shape in H.forests(n):
+                for typed in (False, True):
+                    i += 1
+                    nodes = B.shape_to_nodes(shape, lambda k, d, s, i=i: ((k * 2 + i) % len(WR_UNIV), ("k%d" % (k % 2)) if typed else None, None))
+                    yield dict(typed=typed, univ=WR_UNIV, nodes=nodes, seed=i)
+        for j in range(10 if tier == "quick" else 150):
+            n = rng.randint(3, 8)
+            typed = rng.random() < 0.4
+            shape = H.random_shape(rng, n, deep=rng.choice([0.2, 0.5, 0.8]))
+            nodes = B.shape_to_nodes(shape, lambda k, d, s: (rng.randrange(len(WR_UNIV)), ("k%d" % (k % 2)) if typed else None, None))
+            yield dict(typed=typed, univ=WR_UNIV, nodes=nodes, seed=1000 + j)
+
+    def shrink_candidates(self, desc):
+        for nodes in B.drop_one_node(desc["nodes"]):
+            yield dict(desc, nodes=nodes)
+
+    def run(self, desc) -> Case:
+        import importlib
+        import io as _io
+        import tempfile
+        from pathlib import Path
+        C17 = importlib.import_module("props.C17")
+        typed = bool(desc.get("typed"))
+        U = B.make_universe(desc["univ"])
+        tree = B.new_tree(desc)
+        try:
+            B.add_nodes(tree._root, desc["nodes"], U, typed)
+        except Exception:  # noqa: BLE001
+            pass
+        nodes = B.all_nodes(tree._root)
+        rng = random.Random(desc["seed"])
+        fails, mer_obs, dot_obs, mer_terms, dot_terms = [], [], [], [], []
+        tmp = Path(tempfile.mkdtemp(prefix="nutree_wr_"))
+
+        def outcome(call, path, other, fmt, want_lines):
+            """run one writer call; returns the observation"""
+            buf = _io.StringIO()
+            target = path if path is not None else buf
+            err = None
+            try:
+                call(target)
+            except Exception as e:  # noqa: BLE001
+                err = e
+            if path is None:
+                text = buf.getvalue()
+                if fmt:
+                    if not isinstance(err, RuntimeError) or text:
+                        fails.append(f"format= with a stream must raise RuntimeError and write nothing (got {type(err).__name__}, {text!r})")
+                        return [0, text]
+                    return [2]
+                if err is None:
+                    if want_lines is not None and text != "".join(ln + "\n" for ln in want_lines):
+                        fails.append("the stream does not hold the lines of the iterator API, one per line")
+                    return [0, text]
+                return [3, 0, False, text]
+            # a path: which file was written?
+            written = other if fmt else path
+            if fmt and path.exists() and not written.exists():
+                fails.append("format=: the text was written to the target path instead of the path with the replaced suffix")
+            text = written.read_text() if written.exists() else ""
+            if fmt or err is None:
+                if want_lines is not None and text != "".join(ln + "\n" for ln in want_lines):
+                    fails.append(f"the file {written.name} does not hold the lines of the iterator API")
+                if want_lines is None:       # a failing mapper: an exception of the mapper, before any converter
+                    return [3, 1, bool(fmt), text]
+                return [1, bool(fmt), text]
+            return [3, 1, False, text]
+
+        k = 0
+        starts = [None] + nodes[::2]
+        for st in starts:
+            for o in WR_CHART_OPTS:
+                p, f = rng.random() < 0.4, rng.random() < 0.3
+                k += 1
+                kw = dict(as_markdown=o["md"], direction=o["dir"], title=o["title"], headers=o["headers"], unique_nodes=o["uniq"],
+                          node_mapper=o["nt"], edge_mapper=o["et"])
+                # the lines the iterator API yields for the same options (format forces as_markdown=False)
+                import nutree.mermaid as NM
+                try:
+                    want = list(NM._node_to_mermaid_flowchart_iter(node=tree._root if st is None else st, add_root=o["add"],
+                                                                   **dict(kw, as_markdown=o["md"] and not f)))
+                except Exception:  # noqa: BLE001
+                    want = None
+                path = (tmp / f"m{k}.md") if p else None
+                other = (tmp / f"m{k}.tmp") if p else None
+
+                def call(target, st=st, o=o, kw=kw, f=f):
+                    extra = {"format": "png"} if f else {}
+                    if st is None:
+                        tree.to_mermaid_flowchart(target, add_root=o["add"], **kw, **extra)
+                    else:
+                        st.to_mermaid_flowchart(target, add_self=o["add"], **kw, **extra)
+                ob = outcome(call, path, other, f, want)
+                if want is None and ob[0] not in (2, 3):
+                    fails.append(f"a failing mapper went unnoticed: {o}")
+                mer_obs.append(ob)
+                mer_terms.append(f"({H.z(0 if st is None else H.nid(st))}, {C17.coq_mopts(o)}, {H.coq_bool(p)}, {H.coq_bool(f)})")
+        for o in WR_DOT_OPTS:
+            for p, f in ((False, False), (False, True), (True, False), (True, True)):
+                k += 1
+                kw = dict(unique_nodes=o["uniq"], graph_attrs=dict(o["g"]), node_attrs=dict(o["n"]), edge_attrs=dict(o["e"]),
+                          node_mapper=C17._setter(o["nm"]), edge_mapper=C17._setter(o["em"]))
+                want = list(tree.to_dot(add_root=o["add"], **kw))
+                path = (tmp / f"d{k}.dot") if p else None
+                other = (tmp / f"d{k}.gv") if p else None
+
+                def call(target, o=o, kw=kw, f=f):
+                    tree.to_dotfile(target, add_root=o["add"], **kw, **({"format": "png"} if f else {}))
+                dot_obs.append(outcome(call, path, other, f, want))
+                dot_terms.append(f"({C17.coq_dopts(o)}, {H.coq_bool(p)}, {H.coq_bool(f)})")
+        import shutil
+        shutil.rmtree(tmp, ignore_errors=True)
+        coq = f"({H.coq_rt(tree._root, U)}, {H.coq_list(mer_terms)}, {H.coq_list(dot_terms)})"
+        return Case(desc=desc, coq_input=coq, impl_obs=[mer_obs, dot_obs], oracle_fail=("writers: " + fails[0]) if fails else None,
+                    nontrivial=len(nodes) >= 1, key=H.digest(desc),
+                    stats=dict(nodes=len(nodes), typed=typed, broken=sum(1 for o in mer_obs if o[0] == 3), refused=sum(1 for o in mer_obs + dot_obs if o[0] == 2)))
+
+
+WRITERS = WritersPart()
